@@ -412,5 +412,7 @@ def run(chk, ctx):
     r3(chk, ctx)
     r4(chk, ctx)
     r5(chk, ctx)
+    from . import c09
+    c09.r2(chk, ctx)      # every started STANDARD execution (re)creates its record: StartExecution/DescribeExecution/ListExecutions agree
     chk.assume("request values are JSON values; Flask/Quart deliver the body as bytes; jsonify succeeds for JSON-serialisable records")
     chk.assume("kind lattice folds 0 and 0.0 into int/float (treated as possibly falsy)")
